@@ -19,7 +19,7 @@ NSHARDS = {"quick": 32, "thorough": 64}
 BUDGET_S = {"quick": 200, "thorough": 1500}
 MIN_HITS = {
     'quick': {"exh2": 32768, "exh1": 128, "grammar_accepted": 3393, "trunc_case": 22242, "prefix": 51, "encode": 299, "tx_embed": 1203},
-    'thorough': {"exh2": 39321, "exh1": 153, "grammar_accepted": 256015, "trunc_case": 507756, "prefix": 61, "encode": 53, "tx_embed": 102633},
+    'thorough': {"exh2": 39321, "exh1": 153, "grammar_accepted": 279132, "trunc_case": 507809, "prefix": 61, "encode": 360, "tx_embed": 102633},
 }
 
 LENS = [0, 1, 2, 74, 75, 76, 77, 254, 255, 256, 257, 65534, 65535, 65536, 65537]
@@ -106,7 +106,8 @@ def cases(ctx):
     pl += [r.randrange(1, 1 << 32) for _ in range(40)] + [r.randrange(1, 70000) for _ in range(40)]
     for L in pl[S::N]:
         yield {"k": "prefix", "len": L}
-    el = [1, 2, 75, 76, 255, 256, 65535, 65536, 65537, 100000, 1 << 20] + ([1 << 24, (1 << 24) + 1] if thorough else [])
+    # 2^31 (a length that no longer fits a signed 32-bit integer; ~8 GiB peak in the driver) is part of the quick tier; 2^32-1 thorough only
+    el = [1, 2, 75, 76, 255, 256, 65535, 65536, 65537, 100000, 1 << 20, 1 << 31] + ([1 << 24, (1 << 24) + 1, (1 << 31) - 1, (1 << 32) - 1] if thorough else [])
     el += [r.randrange(1, 300) for _ in range(30)] + [r.randrange(1, 70000) for _ in range(10)]
     for i, L in enumerate(el):
         if i % N == S:
@@ -125,6 +126,18 @@ def cases(ctx):
         if (i + 5) % N == S:
             for m in sorted(set([1, max(1, d // 2), max(1, d - 1024), max(1, d - 2048), max(1, d - 4096), d])):
                 yield {"k": "nest", "depth": d, "else": bool(m & 1), "missing": m}
+    # never-closed conditionals BEHIND every kind of prefix (data-carrier prefixes, pushes, ordinary templates, closed blocks): the
+    # prefix must not switch the nesting check off
+    prefixes = [b"", b"\x00\x6a", b"\x6a", b"\x00", b"\x51\x6a", b"\x6a\x6a", b"\x00\x6a\x04abcd", b"\x76\xa9\x14" + bytes(20) + b"\x88\xac", b"\x63\x68", b"\x63\x67\x68", b"\x51\x63\x51\x68",
+                b"\x4c\x01\x63", b"\x01\x63", b"\xab", b"\x6a\x4c\x02\x63\x68", b"\x00\x00", b"\x4f\x6a", b"\x00\x6a\x00\x6a"]
+    tails = [b"\x63", b"\x64", b"\x65", b"\x66", b"\x63\x51", b"\x63\x67", b"\x63\x67\x51", b"\x63\x63\x68", b"\x63\x68\x63", b"\x64\x67\x67", b"\x63\x51\x67\x63\x68"]
+    pi = 0
+    for pre in prefixes:
+        for tail in tails:
+            pi += 1
+            if pi % N == S:
+                yield {"k": "script", "hex": (pre + tail).hex(), "tag": "unclosed_behind_prefix"}
+                yield {"k": "tx_embed", "hex": (pre + tail).hex(), "tag": "unclosed_behind_prefix"}
     # grammar scripts + mutations
     n = (5000 if thorough else 120)
     for i in range(n):
@@ -319,7 +332,9 @@ def judge(ctx, case):
             req["seed"] = case["seed"]
             L = case["len"]
         req["guard"] = (256 << 20) + 16 * L
-        r = ctx.call(req)
+        if L >= 1 << 31:
+            ctx.hit("encode_len>=2^31")
+        r = ctx.call(req, watchdog=1200 if L >= 1 << 30 else None)
         ctx.ev()
         exp = wire.push_prefix(L)
         if "alloc_guard" in r or "timeout" in r or "death" in r:
